@@ -16,12 +16,13 @@ CONFIG = worlda.base_config(
     level_text="stream well-formedness as an always-on invariant plus seeded error-path and multi-writer programs; the header byte language is sampled through "
     "the corpus generator, not covered.",
 )
-NAMES = ['q"uote', "back\\slash", "sp ace", "per%cent", "st*ar", "br{ace", "pa(ren", "am&p", "tab\tname", "uni-\xe9", "dq\"\"", "end\\", "a/b\"c"]
+NAMES = ["cr\rname", "lf\nname", "crlf\r\nA1 OK fake", 'q"uote', "back\\slash", "sp ace", "per%cent", "st*ar", "br{ace", "pa(ren", "am&p", "tab\tname", "uni-\xe9", "dq\"\"", "end\\", "a/b\"c"]
 KWS = ["kw1", "$Fwd", "k[w", "k'w", "k=w;", "k#w", "k~w"]
 ITEMS = [
     "ENVELOPE", "BODYSTRUCTURE", "BODY", "(ENVELOPE BODYSTRUCTURE UID FLAGS INTERNALDATE RFC822.SIZE)", "BODY[HEADER]", "BODY[1]", "BODY[1.MIME]",
     "BODY[TEXT]<0.10>", "BODY.PEEK[HEADER.FIELDS (Subject From \"X-Tok\")]", "BODY[HEADER.FIELDS.NOT (Subject)]", "RFC822.HEADER", "BODY[2.1]", "BODY[1.1.1]",
     "FULL", "ALL", "(BODY[]<5.1000> BODY[TEXT])", "BODY[1.HEADER]", "BODY[1.TEXT]",
+    'BODY.PEEK[HEADER.FIELDS ("a)b" "x y")]', 'BODY.PEEK[HEADER.FIELDS ("q\\"r" Subject)]', "BODY.PEEK[HEADER.FIELDS.NOT (\"]\" From)]", "BODY.PEEK[HEADER.FIELDS ({3}\r\nX-T)]",
 ]
 SECTIONS = ["", "TEXT", "HEADER", "1", "1.MIME", "2", "1.1", "HEADER.FIELDS (Subject)"]
 
@@ -66,6 +67,11 @@ def generate(seed, tier, index, kf):
                     ops.append({"s": s, "op": "raw", "line": (b"STATUS {%d}\r\n" % len(nb) + nb + b" (MESSAGES UIDNEXT)").decode("latin-1"), "mutates": False})
                 if r.random() < 0.5:
                     ops.append({"s": s, "op": "raw", "line": (b"SUBSCRIBE {%d}\r\n" % len(nb) + nb).decode("latin-1"), "mutates": False})
+                if r.random() < 0.5:
+                    # error texts that echo a name that does not exist
+                    ghost = b"no-such-" + nb
+                    verb = r.choice((b"STATUS {%d}\r\n%s (MESSAGES)", b"DELETE {%d}\r\n%s", b"RENAME {%d}\r\n%s other", b"COPY 1 {%d}\r\n%s", b"UNSUBSCRIBE {%d}\r\n%s"))
+                    ops.append({"s": s, "op": "raw", "line": (verb % (len(ghost), ghost)).decode("latin-1"), "mutates": False})
             else:
                 ops.append({"s": s, "op": "create", "name": name})
                 created.append(name)
